@@ -123,6 +123,11 @@ Definition pack_obj (prior : Z) (a : attrs) : result (list Z) * Z := pack_obj_fr
 (* _pack without that statement: the prior flags leak into the encoding *)
 Definition pack_obj_noreset (prior : Z) (a : attrs) : result (list Z) * Z := pack_obj_from prior a.
 
+(* __str__ / __repr__ / asbytes / _debug_str (rendering; SFTPServer._read_folder renders every listing entry
+   as its longname just before packing it) read the fields and leave the object -- flags and fields -- as it
+   is; gen/c33.py checks on every run that none of these methods stores into self (G_RENDER_READONLY) *)
+Definition render_obj (o : Z * attrs) : Z * attrs := if G_RENDER_READONLY then o else o.
+
 (* ---- _unpack -------------------------------------------------------------- *)
 (* self.attr[key] = val on a dict kept in insertion order *)
 Fixpoint dict_set (d : list (bstr * bstr)) (k v : bstr) : list (bstr * bstr) :=
